@@ -81,6 +81,10 @@ class C01(Hist1Prop):
         if n >= 4 and n % 2 == 0 and rng.random() < 0.3:
             op["shape"] = [2, n // 2] if (n % 4 or rng.random() < 0.5) else [2, 2, n // 4]
             tags.append("nd_shape")
+            if rng.random() < 0.5:
+                op["worder"] = "F"; tags.append("weights_F_order")
+            if rng.random() < 0.3:
+                op["dorder"] = "F"; tags.append("data_F_order")
         elif n == 1 and rng.random() < 0.3:
             op["shape"] = []
             if ws is not None:
@@ -136,6 +140,7 @@ class C01(Hist1Prop):
         w = op.get("weights")
         if w is not None:
             w = impl1.arr(w, np.dtype(op.get("wkind") or "float64"), op.get("wshape", op.get("shape")))
+        data, w = impl1.memory_order(op, data, w)
         kw = {}
         m = spec["method"]
         bins = spec["n"] if m == "int" else m
